@@ -557,6 +557,10 @@ class Models:
     def make_set(self, I, items):
         if hasattr(self, "make_set_hook"):
             return self.make_set_hook(I, items)
+        if isinstance(items, PyList):
+            items = items.items
+        if isinstance(items, (list, tuple)):
+            return ConcreteSet(list(items))
         raise Unsupported("set construction")
 
     def dict_from_pairs(self, I, pairs):
@@ -590,6 +594,35 @@ class Models:
     def pymod(self, I, a, b):
         q = self.floordiv(I, a, b)
         return SInt(a - q.z * b)
+
+
+class ConcreteSet:
+    """Python set with a concrete number of elements, compared by identity / python equality."""
+
+    pvc_type = "set"
+
+    def __init__(self, items):
+        self.items = []
+        for x in items:
+            if not any(x is y or (not isinstance(x, SV) and not isinstance(y, SV) and x == y) for y in self.items):
+                self.items.append(x)
+
+    def _has(self, x):
+        return any(x is y or (not isinstance(x, SV) and not isinstance(y, SV) and x == y) for y in self.items)
+
+    def pvc_eq(self, I, other):
+        if isinstance(other, ConcreteSet):
+            return len(self.items) == len(other.items) and all(other._has(x) for x in self.items)
+        return NotImplemented
+
+    def pvc_contains(self, I, x):
+        return self._has(x)
+
+    def pvc_len(self, I):
+        return len(self.items)
+
+    def pvc_iter(self, I):
+        return PyList(list(self.items))
 
 
 class SuperProxy:
